@@ -1088,6 +1088,7 @@ class Cov(Reduction):
     def aggregate_kwargs(self):
         return {
             **self.chunk_kwargs,
+            "min_periods": self.min_periods,
             "scalar": self.scalar,
             "like_df": self.frame._meta,
             "cols": self.frame.columns,
